@@ -15,8 +15,13 @@ ENOSPC, EIO = 28, 5
 def gen_fault_workload(rng, idx, tier):
     mfs = rng.choice([60, 60, 300, 9000, 1 << 31])
     sync = rng.choice(["none", "always"])
-    cfg = f"cfg mfs={mfs} sync={sync} frag=0/1 dead=0 small=1099511627776 cache=256 pool=1"
-    keys = rng.sample([b"k", b"z", b"", b"key2"], rng.randint(1, 3))
+    # mostly every file with counters is eligible for a merge; sometimes only fragmented files are (so that a merge can
+    # select an input again while leaving an earlier output alone)
+    sel = "frag=0/1 dead=0 small=1099511627776" if rng.random() < 0.7 else "frag=1/8 dead=1099511627776 small=0"
+    cfg = f"cfg mfs={mfs} sync={sync} {sel} cache=256 pool=1"
+    # keys longer than the 8 KiB write buffer make the HINT entry of a merge take two write(2) calls, like a large value does
+    # for a data entry
+    keys = rng.sample([b"k", b"z", b"", b"key2", b"K" * 9000], rng.randint(1, 3))
     ops = []
     n = rng.randint(2, 7 if tier == "quick" else 12)
     for _ in range(n):
@@ -170,6 +175,12 @@ def run_c20(rep, tier, seed):
     corpus.append((Hist("c3", "cfg mfs=60 sync=none frag=0/1 dead=0 small=1099511627776 cache=256 pool=1",
                          [P(b"a", b"1" * 40), P(b"k", b"2" * 40), P(b"b", b"3" * 40), ("del", b"k"), P(b"c", b"4" * 40), ("merge",), P(b"d", b"5")]),
                    dict(keys=[b"a", b"k", b"b", b"c", b"d"], mfs=60, sync="none")))
+    # D13: the hint entry of a key longer than the write buffer takes two writes; the second one fails; a later pass that
+    # selects the input again (only fragmented files are eligible) removes it
+    BIGK = b"K" * 9000
+    corpus.append((Hist("c4", "cfg mfs=20000 sync=none frag=1/8 dead=1099511627776 small=0 cache=256 pool=1",
+                         [P(BIGK, b"a" * 10), ("put", b"k2", b"b" * 9000, "62*9000"), P(b"k3", b"c" * 10), P(b"k2", b"d" * 10), ("merge",), ("merge",)]),
+                   dict(keys=[BIGK, b"k2", b"k3"], mfs=20000, sync="none")))
     ncorpus = len(corpus)
     wl = corpus + [gen_fault_workload(rng, i, tier) for i in range(nw)]
     # baselines: count physical calls
